@@ -65,6 +65,14 @@ CLAIMED = {
         "the same expression evaluated by NumPy on dense arrays.",
         "Holds on the explored region only. In-memory (global) genomic arrays; the streamed per-chromosome variant is covered by C11.",
         "Hypothesis generation of data and expression trees, reference-model oracle (NumPy on dense arrays)"),
+    "C10": (
+        "Generated multi-chromosome genomes (prefix names, underscore names under both filters, underscore name not last) with interval and "
+        "location sets emphasising entries at chromosome boundaries; every genome-wide operation (mask, pileup, sorted, merged, clip, "
+        "extended_to_size, get_location, get_windows, array and sequence values under stranded intervals through the dict and the indexed-FASTA "
+        "back ends, Geometry helpers) is compared per chromosome with the single-contig model applied to that chromosome's entries alone, and "
+        "the GlobalOffset conversions are checked exhaustively for every generated genome.",
+        "Holds on the explored region only. In-memory (Full) variants; streamed variants are C11/C12. The per-chromosome model is the one validated in C08.",
+        "Hypothesis generation, reference-model oracle (per-chromosome restriction) + exhaustive bijection check per genome"),
     "C15": (
         "Fault injection over generated inputs: one format violation of each class is injected at every record position of a well-formed file; "
         "exhaustive over small files x every chunk size x lazy/eager x plain/gzip, sampled for larger files of nine formats. Oracle: an exception "
